@@ -35,7 +35,7 @@ let panic_code = function
   | PCheckpointParents -> "P" | PCheckpointUnfinished -> "Q" | PCheckpointChildren -> "H"
   | PCheckpointFirstChild -> "M" | PStaticMissing -> "s" | PStaticMismatch -> "d"
   | PIntern -> "I" | PKindMismatch -> "k" | PSliceRange -> "r" | POffsetRange -> "o"
-  | PUnreachable -> "!" | PTextEqDebug -> "e" | PFromRaw -> "f" | POther -> "?"
+  | PUnreachable -> "!" | PTextEqDebug -> "e" | PFromRaw -> "f" | PCharBoundary -> "c" | POther -> "?"
 
 let rec dump_green strs buf g =
   match g with
@@ -491,6 +491,85 @@ let run_a args =
   | ["green"; _t; _tr] -> verdict green_token_unconditional
   | _ -> "BAD-CASE"
 
+(* ------------------------------------------------------------------------------------------ *)
+(* `X` (C12): text views.  A view is (tree, node position, absolute start, absolute end). *)
+let rec true_off_pos g (p : pos) : int =
+  match p with
+  | [] -> 0
+  | i :: q ->
+    let ks = kids g q in
+    let rec take n l = if n = 0 then [] else match l with [] -> [] | x :: r -> x :: take (n - 1) r in
+    true_off_pos g q + List.fold_left (fun a c -> a + int_of_n (glen c)) 0 (take (int_of_nat i) ks)
+
+let run_x args =
+  let rec split acc = function [] -> (List.rev acc, []) | "|" :: r -> (List.rev acc, r) | x :: r -> split (x :: acc) r in
+  let (bs, ops) = split [] args in
+  let cache = ref empty_cache and greens = ref [] and ok = ref true in
+  List.iter (fun b -> match build_in !cache b with
+      | Some (g, c) -> cache := c; greens := !greens @ [g]
+      | None -> ok := false) (split_list "/" bs);
+  if not !ok then "BUILD-PANIC" else begin
+    let strs = !cache.c_strs in
+    let trees = Array.of_list !greens in
+    (* view: (tree, pos, s, e) *)
+    let root_view i = let g = trees.(i) in Some (i, [], 0, int_of_n (glen g)) in
+    let views = ref (List.init (Array.length trees) root_view) in
+    let chunks_of (ti, p, s, e) =
+      let g = trees.(ti) in
+      match subr g p with
+      | None -> Panic POther
+      | Some el -> chunks (tok_ranges static_text strs el (n_of_int (true_off_pos g p))) (n_of_int s) (n_of_int e) in
+    let outs = List.map (fun op ->
+        let p = Array.of_list (String.split_on_char ':' op) in
+        let num i = int_of_string p.(i) in
+        let view i = if i < Array.length p then (match int_of_string_opt p.(i) with
+            | Some k -> (match List.nth_opt !views k with Some v -> v | None -> None) | None -> None) else None in
+        let with_chunks v f = match chunks_of v with Panic q -> "PANIC:" ^ panic_code q | Ok cs -> f cs in
+        match p.(0) with
+        | "node" ->
+          let ti = num 1 in
+          let path = if p.(2) = "-" then [] else List.map int_of_string (String.split_on_char '.' p.(2)) in
+          let pos = List.rev_map nat_of_int path in
+          if ti < Array.length trees && (match subr trees.(ti) pos with Some e -> is_node e | None -> false) then begin
+            let s = true_off_pos trees.(ti) pos in
+            views := !views @ [Some (ti, pos, s, s + int_of_n (len_at trees.(ti) pos))]; "ok"
+          end else begin views := !views @ [None]; "-" end
+        | "slice" ->
+          (match view 1 with
+           | None -> views := !views @ [None]; "-"
+           | Some (ti, pos, s, e) ->
+             (match v_slice (n_of_int s) (n_of_int e) (n_of_int (num 2)) (n_of_int (num 3)) with
+              | Panic q -> views := !views @ [None]; "PANIC:" ^ panic_code q
+              | Ok (s', e') -> views := !views @ [Some (ti, pos, int_of_n s', int_of_n e')];
+                "len=" ^ string_of_int (int_of_n (v_len s' e'))))
+        | _ ->
+          (match view 1 with
+           | None -> "-"
+           | Some ((ti, pos, s, e) as v) ->
+             (match p.(0) with
+              | "len" -> string_of_int (int_of_n (v_len (n_of_int s) (n_of_int e)))
+              | "empty" -> if v_is_empty (n_of_int s) (n_of_int e) then "1" else "0"
+              | "str" -> with_chunks v (fun cs -> show_text (v_to_string cs))
+              | "has" -> with_chunks v (fun cs -> if v_contains cs (n_of_int (num 2)) then "1" else "0")
+              | "find" -> with_chunks v (fun cs -> match v_find cs (n_of_int (num 2)) N0 with Some x -> string_of_int (int_of_n x) | None -> "-")
+              | "at" -> with_chunks v (fun cs -> match v_char_at cs (n_of_int (num 2)) N0 with
+                  | Ok (Some c) -> string_of_int (int_of_n c) | Ok None -> "-" | Panic q -> "PANIC:" ^ panic_code q)
+              | "eqs" -> with_chunks v (fun cs -> if v_eq_str cs (parse_text (if Array.length p > 2 then p.(2) else "")) then "1" else "0")
+              | "eqv" ->
+                (match view 2 with
+                 | None -> "-"
+                 | Some ((_, _, s2, e2) as w) ->
+                   with_chunks v (fun xs -> with_chunks w (fun ys ->
+                       if v_eq_view xs (v_len (n_of_int s) (n_of_int e)) ys (v_len (n_of_int s2) (n_of_int e2)) then "1" else "0")))
+              | "chunks" -> with_chunks v (fun cs -> "[" ^ String.concat "|" (List.map show_text cs) ^ "]")
+              | "try" -> with_chunks v (fun cs ->
+                  let k = num 2 in
+                  let rec take n l = if n = 0 then [] else match l with [] -> [] | x :: r -> x :: take (n - 1) r in
+                  (if List.length cs <= k then "done" else "stopped") ^ "[" ^ String.concat "|" (List.map show_text (take k cs)) ^ "]")
+              | _ -> "?"))) ops in
+    String.concat " ; " outs
+  end
+
 let run_line line =
   match List.filter (fun s -> s <> "") (String.split_on_char ' ' line) with
   | [] -> ""
@@ -502,6 +581,7 @@ let run_line line =
   | "I" :: args -> run_i args
   | "A" :: args -> run_a args
   | "Q" :: args -> run_q args
+  | "X" :: args -> run_x args
   | "V" :: args -> run_v args
   | "Z" :: args -> run_z args
   | "W" :: args -> run_w args
